@@ -90,7 +90,7 @@ class Ctx:
     ev = {'property_id': self.prop, 'tier': self.tier, 'seed': self.seed, 'level': self.level, 'coverage': cov,
           'assumptions': self.assumptions, 'wall_s': round(time.time() - self.t0, 1),
           'violations': len(self.violations)}
-    if not self.replay_path:
+    if not self.replay_path and not os.environ.get('VERIF_NO_EVIDENCE'):   # seeded-mutation runs must not overwrite evidence
       with open(os.path.join(EVIDENCE, self.prop + '.json'), 'w') as f:
         json.dump(ev, f, indent=1, sort_keys=True, default=str)
     for what, n in sorted(self.known_hits.items()):
